@@ -379,6 +379,18 @@ const (
 	ls$ := "a\tb\\n\"q\" é \x41"
 	lr$ := ` + "`raw \"q\" \\n`" + `
 	fmt.Println(ls$, lr$, len(ls$), len(lr$), "", "%d%%")`},
+	{Name: "func-literal-argument-multiline", Decl: `
+func applyTo$(f func(int) int, v int) int {
+	return f(v)
+}
+`, Body: `
+	fa$ := applyTo$(func(q int) int {
+		return q * q
+	}, 21)
+	func() {
+		fmt.Println("fla iife", fa$)
+	}()`},
+	{Name: "string-literals-special", Body: "\n\tsp$ := []string{\"a\\u00a0b\", \"a\\u200bb\", \"e\\u0301\", \"a\\x7fb\", \"a\\vb\", \"a\\ab\", \"a\\rb\", \"a\\x00b\", \"\\U0001F469\\u200d\\U0001F4BB\", \"a\u00a0b\", \"a\u200bb\", `raw\u00a0\u200b`}\n\tfor _, s$ := range sp$ {\n\t\tfmt.Printf(\"%d %q\\n\", len(s$), s$)\n\t}"},
 	{Name: "raw-string-multiline", Body: `
 	rs$ := ` + "`line one\n  line two\nline three`" + `
 	fmt.Println("rs", len(rs$), rs$)`},
@@ -651,6 +663,14 @@ func intExprP(rng *rand.Rand, depth int) (string, int) {
 
 	if o.op == "%" {
 		r, rp = fmt.Sprint(rng.Intn(5)+2), 7
+	}
+
+	// In Ego "^" is exponentiation, computed by a loop inside ONE instruction (the
+	// step budget cannot interrupt it): the exponent is a small literal and the base
+	// a plain operand, never a sub-expression that may have grown large.
+	if o.op == "^" {
+		l, lp = intAtom(rng), 7
+		r, rp = fmt.Sprint(rng.Intn(3)+1), 7
 	}
 
 	if lp < o.prec || rng.Intn(6) == 0 {
